@@ -124,6 +124,8 @@ class Check:
                 vio_paths.append(p)
                 print('VIOLATION property=%s replay=%s  # %s' % (self.pid, p, v['desc'][:300]), flush=True)
             code = 1
+        if vio_paths:
+            code = 1          # a natively reproduced violation is reported as such even if other parts were inconclusive
         paths = sum(r['paths'] for r in self.runs)
         cov = {
             'states': max(1, paths),
